@@ -35,7 +35,7 @@ static int vf_finite(double d) { return d == d && fabs(d) <= DBL_MAX; }
 
 int main(VF_MAIN_ARGS)
 {
-    unsigned i, j; int cs, ka_, kb_, r, r2, spec = 0, defined = 1; cJSON sA, sB; char *sa, *sb; const cJSON *pa = &A, *pb = &B;
+    unsigned i, j; int cs, ka_, kb_, r, r2, spec = 0, defined = 1, distinct = 1; cJSON sA, sB; char *sa, *sb; const cJSON *pa = &A, *pb = &B;
     VF_INIT();
     cs = IN.cs & 1;
     na = IN.na % (K + 1); nb = IN.nb % (K + 1);
@@ -60,8 +60,14 @@ int main(VF_MAIN_ARGS)
     VF_ASSUME(KA == -1 ? (ka_ != cJSON_Number && ka_ != cJSON_Array && ka_ != cJSON_Object) : ka_ == KA);
 #endif
     /* precondition of the property: keys distinct per object (after folding when case-insensitive) */
+#ifdef DUPKEYS
+    /* repeated member names allowed: only the unambiguous part of the property is then decided (objects with different key SETS are unequal) */
+    if (ka_ == cJSON_Object) for (i = 0; i < na; i++) for (j = i + 1; j < na; j++) if (keq(IN.ka[i], IN.ka[j], cs)) distinct = 0;
+    if (kb_ == cJSON_Object) for (i = 0; i < nb; i++) for (j = i + 1; j < nb; j++) if (keq(IN.kb[i], IN.kb[j], cs)) distinct = 0;
+#else
     if (ka_ == cJSON_Object) for (i = 0; i < na; i++) for (j = i + 1; j < na; j++) VF_ASSUME(!keq(IN.ka[i], IN.ka[j], cs));
     if (kb_ == cJSON_Object) for (i = 0; i < nb; i++) for (j = i + 1; j < nb; j++) VF_ASSUME(!keq(IN.kb[i], IN.kb[j], cs));
+#endif
     if ((IN.mode % 4) == 1) pa = 0; else if ((IN.mode % 4) == 2) pb = 0; else if ((IN.mode % 4) == 3) { pb = &A; }
     sA = A; sB = B;
 
@@ -97,6 +103,15 @@ int main(VF_MAIN_ARGS)
             for (j = 0; j < nb; j++) { int f = 0; for (i = 0; i < na; i++) if (keq(IN.ka[i], IN.kb[j], cs) && (IN.eq[i][j] & 1)) f = 1; if (!f) spec = 0; }
             break;
         default: spec = 0; break;
+        }
+        if (!distinct) {
+            defined = 0;
+            if (ka_ == cJSON_Object && kb_ == cJSON_Object) {
+                int differ = 0;
+                for (i = 0; i < na; i++) { int f = 0; for (j = 0; j < nb; j++) if (keq(IN.ka[i], IN.kb[j], cs)) f = 1; if (!f) differ = 1; }
+                for (j = 0; j < nb; j++) { int f = 0; for (i = 0; i < na; i++) if (keq(IN.ka[i], IN.kb[j], cs)) f = 1; if (!f) differ = 1; }
+                if (differ) { VF_AP(12, !r, "C12 objects whose key sets differ are unequal, repeated member names or not"); VF_WITNESS("dupkeys"); }
+            }
         }
         if (defined) { VF_AP(12, (r != 0) == (spec != 0), "C12 compare returns true exactly when the two nodes denote the same JSON value"); VF_WITNESS("spec"); }
         r2 = cJSON_Compare__real(pb, pa, cs);
